@@ -521,7 +521,7 @@ def run_case(js):
         if r != 'ok':
             if pstorage(before) != before_dump:
                 fail(f'reject-not-atomic@{idx}')
-            if label is not None and label[0] == 'v':
+            if label is not None and label[0] in ('v', 'A'):
                 fail(f'valid-value-rejected@{idx}:{r}')
             if label is not None and label[0] == 'a' and code == 'ADD':
                 # a valid object may only be refused for an exclusivity conflict with the current set
@@ -572,6 +572,9 @@ def run_case(js):
                         fail(f'set-too-large-stored@{idx}')
                 if label is not None and label[0] == 'v' and pv(sv.value) != label[1]:
                     fail(f'stored-value-differs@{idx}:{pv(sv.value)[:60]}')
+                # -- no path may store more than MAX_CONFIG_SET_SIZE (128) elements
+                if isinstance(sv.value, (frozenset, set)) and len(sv.value) > 128:
+                    fail(f'set-too-large-stored@{idx}')
                 # -- set semantics of INSERT / filtered RESET on object sets
                 sd = sdesc.get(name)
                 if sd is not None and sd['t'][0] == 'obj' and sd['so'] and code in ('ADD', 'REM') \
@@ -592,10 +595,10 @@ def run_case(js):
                                 if f['n'] not in given and 'd' in f:
                                     if pv(getattr(extra[0], f['n'])) != pv(dec_val(f['d'], tsp)):
                                         fail(f'field-default-not-applied@{idx}')
-                        objs = list(new)
-                        for i in range(len(objs)):
-                            for j in range(i + 1, len(objs)):
-                                if obj_conflicts(sites, objs[i], objs[j]):
+                        # the old elements were checked when they were added: pairs with the new one
+                        for nw in extra:
+                            for x in new:
+                                if x is not nw and obj_conflicts(sites, nw, x):
                                     fail(f'exclusive-violated@{idx}')
                         if len(new) > 128:
                             fail(f'set-too-large-stored@{idx}')
